@@ -95,7 +95,7 @@ func ruleNoTxUnderUpdate(c *report.Ctx, floorClosures int) {
 
 func runC01(c *report.Ctx) {
 	p := c.P
-	ruleNoTxUnderUpdate(c, 13)
+	ruleNoTxUnderUpdate(c, 8)
 
 	// ---- must-pass ---------------------------------------------------------
 	c.Rule("must-pass", "every success exit of a ledger step passes the call that makes the step durable/complete", 5)
@@ -205,14 +205,21 @@ func runC01(c *report.Ctx) {
 	ruleClassGate(c)
 
 	ruleUnspentValueProvenance(c)
-	ruleNoSwallowedErrorInUpdate(c, 13)
+	ruleNoSwallowedErrorInUpdate(c, 2, func(caller *ssa.Function) bool {
+		// the block apply / rollback / rescan transactions only (C01 is about the ledger of ready wallets)
+		switch caller.Name() {
+		case "processConnectedBlock", "Start", "asyncImport", "onRelevantBlockConnected":
+			return true
+		}
+		return false
+	})
 	ruleDecoderTotality(c)
 	ruleInBlockParentFirst(c)
 	ruleRollbackReverseOrder(c)
 
 	// ---- schema (shared with C09) -------------------------------------------------
 	ruleSchema(c, []string{"nsUnspent", "nsCredits", "nsDebits", "nsMinedBalance", "nsTxRecords", "nsBlocks", "nsUnmined", "nsUnminedInputs", "nsUnminedCredits", "nsAddresses"}, 40, 20)
-	ruleByteOrder(c, []string{pkgTxmgr}, 4)
+	ruleByteOrder(c, []string{pkgTxmgr}, 3)
 	ruleLayout(c, []string{"unspent-key", "credit-key", "outpoint-key", "txrecord-key", "credit-value", "unspent-value", "txrecord-value", "block-value", "block-key", "debit-value", "synced-block-value", "synced-to-value", "address-value", "balance-value"}, 40)
 	ruleRelevantIndex(c, 4)
 	ruleNoMemoryTipUnderUpdate(c)
@@ -282,7 +289,7 @@ func mustPassExcept(c *report.Ctx, f *ssa.Function, set map[*ssa.Function]bool, 
 // return is reachable before a store into the balance map of a value produced by Amount.Sub (Add).
 func ruleBalancePairing(c *report.Ctx) {
 	p := c.P
-	c.Rule("balance-pairing", "mined balance = sum of unspent rows: every deleteRawUnspent is followed (before any success return) by a balance-map store of an Amount.Sub result, every putUnspent/putRawUnspent by an Amount.Add result", 5)
+	c.Rule("balance-pairing", "mined balance = sum of unspent rows: every deleteRawUnspent is followed (before any success return) by a balance-map store of an Amount.Sub result, every putUnspent/putRawUnspent by an Amount.Add result", 3)
 	del := fn(c, pkgTxmgr, "", "deleteRawUnspent")
 	put := fn(c, pkgTxmgr, "", "putUnspent")
 	putRaw := fn(c, pkgTxmgr, "", "putRawUnspent")
@@ -709,13 +716,16 @@ func ruleUnspentValueProvenance(c *report.Ctx) {
 
 // ruleNoSwallowedErrorInUpdate: inside the closure of an Update, the error edge of a call never
 // reaches a `return nil`: the transaction would commit a partially applied step as if it had succeeded.
-func ruleNoSwallowedErrorInUpdate(c *report.Ctx, floor int) {
+func ruleNoSwallowedErrorInUpdate(c *report.Ctx, floor int, only func(caller *ssa.Function) bool) {
 	p := c.P
 	c.Rule("no-swallowed-error-in-update", "in an Update closure no success return is reachable from the error edge of a call made in that closure (a swallowed error commits a partial step and lets in-memory state advance)", floor)
 	_, _, us, _ := updateSites(c)
 	for _, s := range us {
 		cl := s.Closure
 		if cl == nil || cl.Blocks == nil {
+			continue
+		}
+		if only != nil && !only(an.Outermost(s.Caller)) {
 			continue
 		}
 		bad := false
